@@ -36,6 +36,9 @@ type RevalidationContext struct {
 	Freshness  *Freshness
 	Refs       ResponseRefs
 	RefIndex   int
+	// NoStale forbids falling back to the stored response when validation
+	// fails (validation was demanded by no-cache, must-revalidate or max-age).
+	NoStale bool
 }
 
 func (r RevalidationContext) ToMisc(ccResp CCResponseDirectives) MiscFunc {
@@ -90,10 +93,16 @@ func (r *validationResponseHandler) HandleValidationResponse(
 		ccResp     CCResponseDirectives
 		ccRespOnce bool
 	)
-	if (err != nil || isStaleErrorAllowed(resp.StatusCode)) && req.Method == http.MethodGet {
-		ccResp = ParseCCResponseDirectives(resp.Header)
-		ccRespOnce = true
-		if r.siep.CanStaleOnError(ctx.Freshness, ccResp) {
+	if !ctx.NoStale && (err != nil || isStaleErrorAllowed(resp.StatusCode)) &&
+		req.Method == http.MethodGet {
+		if resp != nil {
+			ccResp = ParseCCResponseDirectives(resp.Header)
+			ccRespOnce = true
+		}
+		// RFC 5861 §4: the stale-if-error of the stored response or of the
+		// request applies, not one carried by the error response itself.
+		storedCC := ParseCCResponseDirectives(ctx.Stored.Data.Header)
+		if r.siep.CanStaleOnError(ctx.Freshness, storedCC, ctx.CCReq) {
 			// RFC 9111 §4.2.4 Serving Stale Responses
 			// RFC 9111 §4.3.3 Handling Validation Responses (5xx errors)
 			SetAgeHeader(ctx.Stored.Data, r.clock, ctx.Freshness.Age)
